@@ -21,7 +21,7 @@ for p in props:
         "engine": c.get('engine', 'vcheck'),
         "level_claimed": {"category": c['level'], "text": c['text'], "design_ref": f"DESIGN.md section 2, {pid}"},
         "level_note": c['note'],
-        "technique": c['technique'],
+        "technique": c['technique'] + ('' if pid in ('C13', 'C16') else '; thorough tier adds a libFuzzer (coverage-guided) stage over the same generator and oracle'),
     })
 m = {
     "version": 1,
@@ -36,6 +36,8 @@ m = {
     "engines": [
         {"name": "vcheck", "path": "/verif/harness", "serves_properties": [c['property_id'] for c in checks],
          "kind_free_text": "Rust binary: proptest 1.11 TestRunner over choice streams (8 sharded child processes), exhaustive enumerators, reference models (256-bit arithmetic, both-branches EVM, union-find/partition, word lattice), replay tier, evidence writer"},
+        {"name": "vcheck-fuzz", "path": "/verif/fuzz", "serves_properties": [c['property_id'] for c in checks if c['property_id'] not in ('C13', 'C16')],
+         "kind_free_text": "cargo-fuzz / libFuzzer targets (fz_prop: coverage-guided mutation of the choice stream of any property's own generator and oracle; fz_c10, fz_c01: raw contract bytes). Stage of the thorough tier (VCHECK_FUZZ_SECS, default 240 s per property, -fork=8); findings are saved as ordinary replay files and re-checked outside the fuzzer before they are reported"},
     ],
     "checks": checks,
     "not_applicable": na,
